@@ -42,32 +42,72 @@ type codec[E any] struct {
 	dec func(E) int
 }
 
-// wrap presents a list of E as the int-valued `list` the generators drive
+// wrap presents a list of E as the int-valued `list` the generators drive. It keeps every slice Values() returned
+// (the very slice, not a copy) so that the trace can read them again at its end.
 type wrap[E any] struct {
-	l glist[E]
-	c codec[E]
+	l    glist[E]
+	c    codec[E]
+	kept [][]E
 }
 
-func (w wrap[E]) encs(vs []int) []E {
+const sentinel = 77 // a content class that is never stored and never searched for
+
+// KeptNow: what the slices returned by the Values() calls so far hold now
+func (w *wrap[E]) KeptNow() [][]int {
+	r := make([][]int, len(w.kept))
+	for i, s := range w.kept {
+		r[i] = w.decs(s)
+	}
+	return r
+}
+
+// Snapshot: the current contents for the generators' own use (not a recorded call, not kept)
+func (w *wrap[E]) Snapshot() []int { return w.decs(w.l.Values()) }
+
+// Scribble: a caller takes Values() and overwrites every cell of what it got
+func (w *wrap[E]) Scribble() {
+	s := w.l.Values()
+	for i := range s {
+		s[i] = w.c.enc(sentinel)
+	}
+}
+
+func (w *wrap[E]) encs(vs []int) []E {
 	r := make([]E, len(vs))
 	for i, v := range vs {
 		r[i] = w.c.enc(v)
 	}
 	return r
 }
-func (w wrap[E]) decs(es []E) []int {
+func (w *wrap[E]) decs(es []E) []int {
 	r := make([]int, len(es))
 	for i, e := range es {
 		r[i] = w.c.dec(e)
 	}
 	return r
 }
-func (w wrap[E]) Add(vs ...int)           { w.l.Add(w.encs(vs)...) }
-func (w wrap[E]) Insert(i int, vs ...int) { w.l.Insert(i, w.encs(vs)...) }
-func (w wrap[E]) Remove(i int)            { w.l.Remove(i) }
-func (w wrap[E]) Set(i int, v int)        { w.l.Set(i, w.c.enc(v)) }
-func (w wrap[E]) Swap(i, j int)           { w.l.Swap(i, j) }
-func (w wrap[E]) Sort(bcomparator.Comparator[int]) {
+
+// Batches are passed as a spread slice that the caller reuses afterwards (it is overwritten right after the call):
+// a list must have copied what it was given.
+func (w *wrap[E]) reuse(es []E) {
+	for i := range es {
+		es[i] = w.c.enc(sentinel)
+	}
+}
+func (w *wrap[E]) Add(vs ...int) {
+	es := w.encs(vs)
+	w.l.Add(es...)
+	w.reuse(es)
+}
+func (w *wrap[E]) Insert(i int, vs ...int) {
+	es := w.encs(vs)
+	w.l.Insert(i, es...)
+	w.reuse(es)
+}
+func (w *wrap[E]) Remove(i int)     { w.l.Remove(i) }
+func (w *wrap[E]) Set(i int, v int) { w.l.Set(i, w.c.enc(v)) }
+func (w *wrap[E]) Swap(i, j int)    { w.l.Swap(i, j) }
+func (w *wrap[E]) Sort(bcomparator.Comparator[int]) {
 	w.l.Sort(func(a, b E) int {
 		x, y := w.c.dec(a), w.c.dec(b)
 		switch {
@@ -79,25 +119,33 @@ func (w wrap[E]) Sort(bcomparator.Comparator[int]) {
 		return 0
 	})
 }
-func (w wrap[E]) Clear() { w.l.Clear() }
-func (w wrap[E]) Get(i int) (int, bool) {
+func (w *wrap[E]) Clear() { w.l.Clear() }
+func (w *wrap[E]) Get(i int) (int, bool) {
 	e, ok := w.l.Get(i)
 	return w.c.dec(e), ok
 }
-func (w wrap[E]) Contains(vs ...int) bool { return w.l.Contains(w.encs(vs)...) }
-func (w wrap[E]) IndexOf(v int) int       { return w.l.IndexOf(w.c.enc(v)) }
-func (w wrap[E]) Values() []int           { return w.decs(w.l.Values()) }
-func (w wrap[E]) Size() int               { return w.l.Size() }
-func (w wrap[E]) Empty() bool             { return w.l.Empty() }
-func (w wrap[E]) Append(vs ...int) {
-	w.l.(interface{ Append(values ...E) }).Append(w.encs(vs)...)
+func (w *wrap[E]) Contains(vs ...int) bool { return w.l.Contains(w.encs(vs)...) }
+func (w *wrap[E]) IndexOf(v int) int       { return w.l.IndexOf(w.c.enc(v)) }
+func (w *wrap[E]) Values() []int {
+	s := w.l.Values()
+	w.kept = append(w.kept, s)
+	return w.decs(s)
 }
-func (w wrap[E]) Prepend(vs ...int) {
-	w.l.(interface{ Prepend(values ...E) }).Prepend(w.encs(vs)...)
+func (w *wrap[E]) Size() int   { return w.l.Size() }
+func (w *wrap[E]) Empty() bool { return w.l.Empty() }
+func (w *wrap[E]) Append(vs ...int) {
+	es := w.encs(vs)
+	w.l.(interface{ Append(values ...E) }).Append(es...)
+	w.reuse(es)
+}
+func (w *wrap[E]) Prepend(vs ...int) {
+	es := w.encs(vs)
+	w.l.(interface{ Prepend(values ...E) }).Prepend(es...)
+	w.reuse(es)
 }
 
 // wrapA: array list, with the backing array
-type wrapA[E any] struct{ wrap[E] }
+type wrapA[E any] struct{ *wrap[E] }
 
 func (w wrapA[E]) VerifBacking() []int {
 	return w.decs(w.l.(interface{ VerifBacking() []E }).VerifBacking())
@@ -105,10 +153,10 @@ func (w wrapA[E]) VerifBacking() []int {
 
 func kindsOf[E any](tag string, c codec[E]) []kind {
 	return []kind{
-		{name: "arraylist<" + tag + ">", coq: "KArray", other: true, mk: func() list { return wrapA[E]{wrap[E]{arraylist.New[E](), c}} }},
-		{name: "doublylinkedlist<" + tag + ">", coq: "KDList", other: true, mk: func() list { return wrap[E]{doublylinkedlist.New[E](), c} }},
-		{name: "singlylinkedlist<" + tag + ">", coq: "KSList", other: true, mk: func() list { return wrap[E]{singlylinkedlist.New[E](), c} }},
-		{name: "singlylinkedlist.Safe<" + tag + ">", coq: "KSList", other: true, safe: true, mk: func() list { return wrap[E]{singlylinkedlist.NewSafe[E](), c} }},
+		{name: "arraylist<" + tag + ">", coq: "KArray", other: true, mk: func() list { return wrapA[E]{&wrap[E]{l: arraylist.New[E](), c: c}} }},
+		{name: "doublylinkedlist<" + tag + ">", coq: "KDList", other: true, mk: func() list { return &wrap[E]{l: doublylinkedlist.New[E](), c: c} }},
+		{name: "singlylinkedlist<" + tag + ">", coq: "KSList", other: true, mk: func() list { return &wrap[E]{l: singlylinkedlist.New[E](), c: c} }},
+		{name: "singlylinkedlist.Safe<" + tag + ">", coq: "KSList", other: true, safe: true, mk: func() list { return &wrap[E]{l: singlylinkedlist.NewSafe[E](), c: c} }},
 	}
 }
 
@@ -122,6 +170,8 @@ type withSlice struct {
 }
 
 const badClass = -99 // a value the codec does not know: shows up as a disagreement
+
+var idCodec = codec[int]{enc: func(v int) int { return v }, dec: func(v int) int { return v }}
 
 func otherKinds(rng *vhlib.Rng) []kind {
 	r := rng.Fork()
